@@ -6,6 +6,7 @@ import (
 	"reflect"
 	"strconv"
 	"sync"
+	"sync/atomic"
 	"time"
 
 	"go.brendoncarroll.net/p2p"
@@ -81,6 +82,7 @@ type stackOpts struct {
 	outerMTU int // for frag/mbapp/quic
 	queueLen int
 	skew     bool // node i of a layer with a configurable MTU gets outerMTU>>i: peers that disagree about the limit
+	lossy    bool // the in-memory link wipes and drops every fifth message (a tell transform that owns the message it is given)
 }
 
 func (o stackOpts) mtuOf(i int) int {
@@ -115,6 +117,18 @@ func memOpts(o stackOpts) []memswarm.Option {
 	opts := []memswarm.Option{memswarm.WithQueueLen(o.queueLen)}
 	if o.innerMTU > 0 {
 		opts = append(opts, memswarm.WithMTU(o.innerMTU))
+	}
+	if o.lossy {
+		var n atomic.Int64
+		opts = append(opts, memswarm.WithTellTransform(func(m *memswarm.Message) bool {
+			if n.Add(1)%5 != 0 {
+				return true
+			}
+			for i := range m.Payload {
+				m.Payload[i] = 0
+			}
+			return false
+		}))
 	}
 	return opts
 }
